@@ -30,6 +30,7 @@ RULE = (
     'Non-trivial = the history achieved at least one address reuse and one cache hit; distinct = the step sequence.'
 )
 RULE += ' Added in rounds 5-10: metrics objects on related trajectories with twins rebuilt from raw arrays; collective results checked against the loop model; copy / deepcopy / pickle of live objects pointed at other data; explicit falsy and negative arguments.'
+RULE += ' Round 16: the eviction flood makes more than 128 live entries of ONE cached method (each method has its own table) and re-asks the objects around position 128.'
 RULE += ' Round 14: float arguments that differ only in their last bits (2.0 + k ulp) are different arguments.'
 ASSUMPTIONS = [
     'single-threaded (GEMDAT has no threads): "schedules" are garbage-collection / allocation schedules',
@@ -402,13 +403,19 @@ def run_unit(unit, rng, ctx):
             do_call(pool[-1])
 
         def do_flood():
-            objs = [templates[i % 5].make('metrics' if i % 2 else 'transitions') for i in range(140)]
-            vals = [invoke(o, 'particle_density' if i % 2 else 'states_next', (), {}) for i, o in enumerate(objs)]
-            for i in (0, 1, 2, 3, 139, 138):
-                nm = 'particle_density' if i % 2 else 'states_next'
-                v = invoke(objs[i], nm, (), {})
-                ctx.check(equal(v, invoke(objs[i], nm, (), {}, wrapped=True)) and equal(v, vals[i]), f'after eviction: cached {nm} of object {i} of 140 differs from recomputation', {'history': hist[-5:]})
-            return [weakref.ref(o) for o in objs]
+            # every cached method has its own table of 128 entries: the flood makes more than 128 live entries of ONE
+            # method (140 metrics objects asked for particle_density, 132 transitions objects asked for states_next),
+            # then asks the earliest, the latest and the ones around position 128 again
+            refs_ = []
+            for kind_f, nm, n_f in (('metrics', 'particle_density', 140), ('transitions', 'states_next', 132)):
+                objs = [templates[i % 5].make(kind_f) for i in range(n_f)]
+                vals = [invoke(o, nm, (), {}) for o in objs]
+                for i in (0, 1, 2, 3, 4, 11, 12, n_f - 1, n_f - 2, 127, 128, 129):
+                    v = invoke(objs[i], nm, (), {})
+                    ctx.check(equal(v, invoke(objs[i], nm, (), {}, wrapped=True)) and equal(v, vals[i]), f'after eviction: cached {nm} of object {i} of {n_f} live {kind_f} objects differs from recomputation', {'history': hist[-5:]})
+                refs_ += [weakref.ref(o) for o in objs]
+                del objs, vals
+            return refs_
 
         try:
             for step in range(n_steps):
@@ -442,9 +449,9 @@ def run_unit(unit, rng, ctx):
                     refs = do_flood()
                     gc.collect()
                     alive = sum(r() is not None for r in refs)
-                    ctx.check(alive == 0, f'{alive} of 140 objects stayed alive after being dropped (cache size 128)', {})
+                    ctx.check(alive == 0, f'{alive} of 272 flood objects stayed alive after being dropped (cache size 128)', {})
                     ctx.count('eviction_floods')
-                    hist.append('flood 140 objects')
+                    hist.append('flood 140 + 132 objects')
             # end of history: drop everything, nothing but K6 survivors may stay alive
             refs = [(weakref.ref(e[0]), e[1], e[3]) for e in pool]
             pool.clear()
